@@ -24,13 +24,16 @@ import (
 	"os"
 	"reflect"
 	"runtime/debug"
+	"slices"
 	"strings"
 	"sync"
 	"time"
 	"unsafe"
 
+	"github.com/AdguardTeam/AdGuardDNS/internal/access"
 	"github.com/AdguardTeam/AdGuardDNS/internal/agd"
 	"github.com/AdguardTeam/AdGuardDNS/internal/agdcache"
+	"github.com/AdguardTeam/AdGuardDNS/internal/agdpasswd"
 	"github.com/AdguardTeam/AdGuardDNS/internal/agdtest"
 	"github.com/AdguardTeam/AdGuardDNS/internal/billstat"
 	"github.com/AdguardTeam/AdGuardDNS/internal/debugsvc"
@@ -165,12 +168,23 @@ type vc20RW struct {
 	local  net.Addr
 	remote net.Addr
 	resp   *dns.Msg
+
+	// packErr is the error of packing resp.
+	packErr error
 }
 
 func (rw *vc20RW) LocalAddr() (a net.Addr)  { return rw.local }
 func (rw *vc20RW) RemoteAddr() (a net.Addr) { return rw.remote }
 func (rw *vc20RW) WriteMsg(_ context.Context, _, resp *dns.Msg) (err error) {
 	rw.resp = resp
+
+	// Every real response writer packs the message; a message that cannot be
+	// packed cannot be sent.
+	if _, err = resp.Pack(); err != nil {
+		rw.packErr = err
+
+		return fmt.Errorf("packing the response: %w", err)
+	}
 
 	return nil
 }
@@ -235,7 +249,14 @@ var (
 
 	// vc20ClientMapped is an IPv4 client as a dual-stack socket reports it.
 	vc20ClientMapped = netip.MustParseAddr("::ffff:192.0.2.57")
+
+	// vc20ClientSpecial asks for the answers the service builds itself.
+	vc20ClientSpecial = netip.MustParseAddr("198.51.100.77")
 )
+
+// vc20DeviceID is the identifier of the one device the profile database of the
+// exercise knows.
+const vc20DeviceID agd.DeviceID = "c20dev"
 
 // vc20AllocHazard reports whether creating a request counter for n requests
 // would really allocate an unreasonable amount of memory in the harness
@@ -750,7 +771,9 @@ func (fx *vc20Fixture) vc20Exercise(c *configuration) (o *vc20Outcome) {
 		return nil
 	})
 
-	okCheck := okMsgs && o.step("dnscheck", func() (err error) { return b.initDNSCheck(ctx) })
+	// As in Main, the gRPC metrics come before the users of the backend.
+	okGRPC := o.step("grpc-metrics", func() (err error) { return b.initGRPCMetrics(ctx) })
+	okCheck := okMsgs && okGRPC && o.step("dnscheck", func() (err error) { return b.initDNSCheck(ctx) })
 
 	if okCheck && okTLS && !webSame {
 		o.step("web", func() (err error) {
@@ -796,7 +819,34 @@ func (fx *vc20Fixture) vc20Exercise(c *configuration) (o *vc20Outcome) {
 	profDB.OnProfileByDedicatedIP = func(_ context.Context, _ netip.Addr) (*agd.Profile, *agd.Device, error) {
 		return notFound()
 	}
-	profDB.OnProfileByDeviceID = func(_ context.Context, _ agd.DeviceID) (*agd.Profile, *agd.Device, error) {
+	// One device is known, so that the answers that are specific to recognised
+	// devices (the device DDR records) are built as well.  Its profile gets
+	// the response-size estimate the way the profile storage passes it on.
+	dev := &agd.Device{
+		Auth:             &agd.AuthSettings{Enabled: false, PasswordHash: agdpasswd.AllowAuthenticator{}},
+		ID:               vc20DeviceID,
+		FilteringEnabled: true,
+	}
+	prof := &agd.Profile{
+		FilterConfig: &filter.ConfigClient{
+			Custom:       &filter.ConfigCustom{},
+			Parental:     &filter.ConfigParental{},
+			RuleList:     &filter.ConfigRuleList{},
+			SafeBrowsing: &filter.ConfigSafeBrowsing{},
+		},
+		Access:              access.EmptyProfile{},
+		BlockingMode:        &dnsmsg.BlockingModeNullIP{},
+		Ratelimiter:         agd.NewDefaultRatelimiter(&agd.RatelimitConfig{RPS: 1000, Enabled: true}, c.RateLimit.ResponseSizeEstimate),
+		ID:                  "c20prof",
+		DeviceIDs:           []agd.DeviceID{vc20DeviceID},
+		FilteredResponseTTL: 10 * time.Second,
+		FilteringEnabled:    true,
+	}
+	profDB.OnProfileByDeviceID = func(_ context.Context, id agd.DeviceID) (*agd.Profile, *agd.Device, error) {
+		if id == vc20DeviceID {
+			return prof, dev, nil
+		}
+
 		return notFound()
 	}
 	profDB.OnProfileByHumanID = func(
@@ -976,11 +1026,24 @@ func vc20ExchangeDoT(l dnssvc.Listener) (got int, err error) {
 		}
 	}
 
-	for range 2 {
+	// The third pipelined query is a DDR one: its answer is built from the
+	// group's DDR records; any response will do, but there must be one.
+	ddr := vc20DDRRequest(0xD07F)
+	if err = conn.WriteMsg(ddr); err != nil {
+		return 0, err
+	}
+
+	for range 3 {
 		var resp *dns.Msg
 		resp, err = conn.ReadMsg()
 		if err != nil {
 			return got, err
+		}
+
+		if resp.Id == ddr.Id {
+			got++
+
+			continue
 		}
 
 		req, ok := reqs[resp.Id]
@@ -997,6 +1060,14 @@ func vc20ExchangeDoT(l dnssvc.Listener) (got int, err error) {
 	return got, nil
 }
 
+// vc20DDRRequest returns a DDR query.
+func vc20DDRRequest(id uint16) (req *dns.Msg) {
+	req = (&dns.Msg{}).SetQuestion("_dns.resolver.arpa.", dns.TypeSVCB)
+	req.Id = id
+
+	return req
+}
+
 // vc20ExchangeDoQ sends one query over a QUIC connection, RFC 9250.
 func vc20ExchangeDoQ(l dnssvc.Listener) (got int, err error) {
 	ctx, cancel := context.WithTimeout(context.Background(), 5*time.Second)
@@ -1008,42 +1079,60 @@ func vc20ExchangeDoQ(l dnssvc.Listener) (got int, err error) {
 	}
 	defer func() { _ = conn.CloseWithError(0, "") }()
 
-	stream, err := conn.OpenStreamSync(ctx)
-	if err != nil {
-		return 0, fmt.Errorf("opening stream: %w", err)
-	}
-
 	req := (&dns.Msg{}).SetQuestion("c20-doq.example.net.", dns.TypeA)
 	req.Id = 0
-	data, err := req.Pack()
+	resp, err := vc20DoQStream(ctx, conn, req)
 	if err != nil {
 		return 0, err
+	} else if err = vc20CheckAnswer(req, resp); err != nil {
+		return 0, err
+	}
+
+	// A DDR query on a second stream: any response will do.
+	_, err = vc20DoQStream(ctx, conn, vc20DDRRequest(0))
+	if err != nil {
+		return 1, fmt.Errorf("ddr query: %w", err)
+	}
+
+	return 2, nil
+}
+
+// vc20DoQStream sends req on a new stream of conn and reads the response.
+func vc20DoQStream(ctx context.Context, conn quic.Connection, req *dns.Msg) (resp *dns.Msg, err error) {
+	stream, err := conn.OpenStreamSync(ctx)
+	if err != nil {
+		return nil, fmt.Errorf("opening stream: %w", err)
+	}
+
+	data, err := req.Pack()
+	if err != nil {
+		return nil, err
 	}
 
 	buf := binary.BigEndian.AppendUint16(nil, uint16(len(data)))
 	_ = stream.SetDeadline(time.Now().Add(5 * time.Second))
 	if _, err = stream.Write(append(buf, data...)); err != nil {
-		return 0, fmt.Errorf("writing: %w", err)
+		return nil, fmt.Errorf("writing: %w", err)
 	}
 
 	// A DoQ client must send a FIN to indicate that the query is finished.
 	if err = stream.Close(); err != nil {
-		return 0, fmt.Errorf("closing stream: %w", err)
+		return nil, fmt.Errorf("closing stream: %w", err)
 	}
 
 	respBytes, err := io.ReadAll(stream)
 	if err != nil {
-		return 0, fmt.Errorf("reading: %w", err)
+		return nil, fmt.Errorf("reading: %w", err)
 	} else if len(respBytes) < 2+12 {
-		return 0, fmt.Errorf("short response of %d octets", len(respBytes))
+		return nil, fmt.Errorf("short response of %d octets", len(respBytes))
 	}
 
-	resp := &dns.Msg{}
+	resp = &dns.Msg{}
 	if err = resp.Unpack(respBytes[2:]); err != nil {
-		return 0, fmt.Errorf("unpacking: %w", err)
+		return nil, fmt.Errorf("unpacking: %w", err)
 	}
 
-	return 1, vc20CheckAnswer(req, resp)
+	return resp, nil
 }
 
 // vc20ExchangeDoH sends one query as an HTTP POST over TLS, RFC 8484.
@@ -1052,33 +1141,49 @@ func vc20ExchangeDoH(l dnssvc.Listener) (got int, err error) {
 	defer tr.CloseIdleConnections()
 
 	cli := &http.Client{Transport: tr, Timeout: 5 * time.Second}
+	u := "https://" + vc20Loopback(l.LocalTCPAddr()) + "/dns-query"
+	post := func(req *dns.Msg) (resp *dns.Msg, err error) {
+		data, err := req.Pack()
+		if err != nil {
+			return nil, err
+		}
+
+		httpResp, err := cli.Post(u, "application/dns-message", bytes.NewReader(data))
+		if err != nil {
+			return nil, err
+		}
+		defer func() { _ = httpResp.Body.Close() }()
+
+		body, err := io.ReadAll(httpResp.Body)
+		if err != nil {
+			return nil, fmt.Errorf("reading: %w", err)
+		} else if httpResp.StatusCode != http.StatusOK {
+			return nil, fmt.Errorf("status %d: %q", httpResp.StatusCode, body)
+		}
+
+		resp = &dns.Msg{}
+		if err = resp.Unpack(body); err != nil {
+			return nil, fmt.Errorf("unpacking: %w", err)
+		}
+
+		return resp, nil
+	}
+
 	req := (&dns.Msg{}).SetQuestion("c20-doh.example.net.", dns.TypeA)
 	req.Id = 0
-	data, err := req.Pack()
+	resp, err := post(req)
 	if err != nil {
+		return 0, err
+	} else if err = vc20CheckAnswer(req, resp); err != nil {
 		return 0, err
 	}
 
-	u := "https://" + vc20Loopback(l.LocalTCPAddr()) + "/dns-query"
-	httpResp, err := cli.Post(u, "application/dns-message", bytes.NewReader(data))
-	if err != nil {
-		return 0, err
-	}
-	defer func() { _ = httpResp.Body.Close() }()
-
-	body, err := io.ReadAll(httpResp.Body)
-	if err != nil {
-		return 0, fmt.Errorf("reading: %w", err)
-	} else if httpResp.StatusCode != http.StatusOK {
-		return 0, fmt.Errorf("status %d: %q", httpResp.StatusCode, body)
+	// A DDR query: any response will do.
+	if _, err = post(vc20DDRRequest(0)); err != nil {
+		return 1, fmt.Errorf("ddr query: %w", err)
 	}
 
-	resp := &dns.Msg{}
-	if err = resp.Unpack(body); err != nil {
-		return 0, fmt.Errorf("unpacking: %w", err)
-	}
-
-	return 1, vc20CheckAnswer(req, resp)
+	return 2, nil
 }
 
 // vc20ExchangeDNSCrypt fetches the certificate and sends one query over UDP.
@@ -1261,6 +1366,7 @@ func (fx *vc20Fixture) vc20Queries(
 
 			limited := s.Protocol == agd.ProtoDNS
 			must := sane && (!limited || !plainSeen)
+			respondSpecial := sane && !vc20AccessBlocked(c, vc20ClientSpecial)
 			if limited {
 				plainSeen = true
 			}
@@ -1282,14 +1388,107 @@ func (fx *vc20Fixture) vc20Queries(
 					qtype, name = dns.TypeAAAA, "c20-v6.example.net."
 				}
 
+				if vc20AccessBlocked(c, client) {
+					// "The list of IP addresses or CIDR-es to block": no
+					// answer is the configured behaviour.
+					answered = false
+					o.classes = append(o.classes, "client-access-blocked")
+				}
+
 				fx.vc20Query(o, c, h, s, client, name, qtype, answered, sane)
 			}
+
+			fx.vc20SpecialQueries(o, c, h, g, s, sane, !limited && respondSpecial)
 		}
 	}
 
 	if n == 0 {
 		o.fail("no servers were built from an accepted configuration")
 	}
+}
+
+// vc20AccessBlocked reports whether the access settings block the client.
+func vc20AccessBlocked(c *configuration, ip netip.Addr) (ok bool) {
+	for _, p := range c.Access.BlockedClientSubnets {
+		if p.IsValid() && (p.Contains(ip) || p.Contains(ip.Unmap())) {
+			return true
+		}
+	}
+
+	return false
+}
+
+// vc20Special describes a query for an answer the service builds itself.
+type vc20Special struct {
+	tag          string
+	qclass       uint16
+	device       bool
+	deviceDomain string
+	wantAnswers  bool
+	mustRespond  bool
+}
+
+// vc20SpecialQueries asks a server for the answers that are built from the
+// configuration rather than fetched from the upstream: the DDR records (public
+// and device-specific), the DNS-check addresses, the blocked canary domains,
+// and the debug records of a CHAOS query.  Such a query gets a response of
+// some kind, never an error: a template that the configuration produced and
+// that cannot be packed is a failure of request handling.
+func (fx *vc20Fixture) vc20SpecialQueries(
+	o *vc20Outcome,
+	c *configuration,
+	h dnsserver.Handler,
+	g *agd.ServerGroup,
+	s *agd.Server,
+	sane bool,
+	unlimited bool,
+) {
+	respond := sane && unlimited
+	ask := func(name string, qtype uint16, sp vc20Special) {
+		sp.mustRespond = respond
+		fx.vc20Query(o, c, h, s, vc20ClientSpecial, dns.Fqdn(name), qtype, false, sane, sp)
+	}
+
+	ddr := vc20Special{tag: "ddr-query", wantAnswers: true}
+	ask("_dns.resolver.arpa", dns.TypeSVCB, ddr)
+	if g.DDR != nil {
+		publicTargets := g.DDR.PublicTargets.Values()
+		deviceTargets := g.DDR.DeviceTargets.Values()
+		slices.Sort(publicTargets)
+		slices.Sort(deviceTargets)
+		for _, target := range publicTargets {
+			ask("_dns."+target, dns.TypeSVCB, ddr)
+		}
+
+		for _, target := range deviceTargets {
+			for _, dom := range g.DeviceDomains {
+				dev := vc20Special{tag: "ddr-device-query", wantAnswers: true, device: true, deviceDomain: dom}
+				ask("_dns."+string(vc20DeviceID)+"."+target, dns.TypeSVCB, dev)
+				ask("_dns.resolver.arpa", dns.TypeSVCB, dev)
+			}
+		}
+	}
+
+	// Other types and names under resolver.arpa are answered with NODATA and
+	// NXDOMAIN built by the service.
+	ask("_dns.resolver.arpa", dns.TypeA, vc20Special{tag: "ddr-nodata-query"})
+	ask("c20.resolver.arpa", dns.TypeSVCB, vc20Special{tag: "ddr-nodata-query"})
+
+	for _, dom := range c.Check.Domains {
+		if dom == "" {
+			continue
+		}
+
+		chk := vc20Special{tag: "dnscheck-query", wantAnswers: true}
+		ask(strings.ToLower(dom), dns.TypeA, chk)
+		ask("c20c20c20c-"+strings.ToLower(dom), dns.TypeAAAA, chk)
+	}
+
+	for _, host := range []string{"use-application-dns.net", "mask.icloud.com", "dns-tunnel-check.googlezip.net"} {
+		ask(host, dns.TypeA, vc20Special{tag: "canary-query"})
+	}
+
+	ask("c20-debug.example.net", dns.TypeA, vc20Special{tag: "debug-query", qclass: dns.ClassCHAOS})
 }
 
 // vc20Query serves one query.
@@ -1303,7 +1502,16 @@ func (fx *vc20Fixture) vc20Query(
 	qtype uint16,
 	must bool,
 	noErr bool,
+	special ...vc20Special,
 ) {
+	// A special query asks for an answer that the service builds itself from
+	// the configuration: any response will do, but it must be possible to
+	// build and pack it.
+	var sp vc20Special
+	if len(special) > 0 {
+		sp = special[0]
+	}
+
 	var laddr netip.AddrPort
 	bd := s.BindData()
 	switch {
@@ -1353,8 +1561,19 @@ func (fx *vc20Fixture) vc20Query(
 	req := (&dns.Msg{}).SetQuestion(name, qtype)
 	req.Id = 0xC20
 	req.SetEdns0(1232, false)
+	if sp.qclass != 0 {
+		req.Question[0].Qclass = sp.qclass
+	}
+
+	if sp.device && ri.TLSServerName != "" {
+		// The device is recognised by the server name of the TLS session.
+		ri.TLSServerName = string(vc20DeviceID) + "." + sp.deviceDomain
+	}
 
 	label := fmt.Sprintf("query %s %s on %q (%s) from %s", dns.TypeToString[qtype], name, s.Name, s.Protocol, client)
+	if sp.tag != "" {
+		label = sp.tag + " " + label
+	}
 	var err error
 	func() {
 		defer func() {
@@ -1386,7 +1605,7 @@ func (fx *vc20Fixture) vc20Query(
 
 		o.classes = append(o.classes, "query-error")
 	case rw.resp == nil:
-		if must {
+		if must || (sp.tag != "" && sp.mustRespond) {
 			o.fail("%s: no response was written for a fresh, not blocked client", label)
 		}
 
@@ -1394,6 +1613,15 @@ func (fx *vc20Fixture) vc20Query(
 	default:
 		if must && (rw.resp.Id != req.Id || !rw.resp.Response) {
 			o.fail("%s: malformed response %v", label, rw.resp)
+		}
+
+		if sp.tag != "" {
+			o.classes = append(o.classes, sp.tag+"-responded")
+			if sp.wantAnswers && rw.resp.Rcode == dns.RcodeSuccess && len(rw.resp.Answer) > 0 {
+				o.classes = append(o.classes, sp.tag+"-served")
+			}
+
+			return
 		}
 
 		switch {
